@@ -19,7 +19,7 @@ use serde::Serialize;
 use crate::eds::{AxisType, ExtendedDataSquare};
 use crate::nmt::NamespaceProof;
 use crate::row::{ROW_ID_SIZE, RowId};
-use crate::{DataAvailabilityHeader, Error, Result, Share, bail_validation};
+use crate::{DataAvailabilityHeader, Error, Result, Share, bail_validation, bail_verification};
 
 pub use celestia_proto::shwap::Sample as RawSample;
 
@@ -126,14 +126,32 @@ impl Sample {
 
     /// verify sample with root hash from ExtendedHeader
     pub fn verify(&self, id: SampleId, dah: &DataAvailabilityHeader) -> Result<()> {
-        let root = match self.proof_type {
-            AxisType::Row => dah
-                .row_root(id.row_index())
-                .ok_or(Error::EdsIndexOutOfRange(id.row_index(), 0))?,
-            AxisType::Col => dah
-                .column_root(id.column_index())
-                .ok_or(Error::EdsIndexOutOfRange(0, id.column_index()))?,
+        // root of the axis the proof was built for, and the position of the sampled share on it
+        let (root, leaf_index) = match self.proof_type {
+            AxisType::Row => (
+                dah.row_root(id.row_index())
+                    .ok_or(Error::EdsIndexOutOfRange(id.row_index(), 0))?,
+                id.column_index(),
+            ),
+            AxisType::Col => (
+                dah.column_root(id.column_index())
+                    .ok_or(Error::EdsIndexOutOfRange(0, id.column_index()))?,
+                id.row_index(),
+            ),
         };
+
+        // the proof must be for the leaf at the requested coordinates, otherwise
+        // a share of any other position on that axis would verify too
+        let leaf_index = u32::from(leaf_index);
+        if self.proof.start_idx() != leaf_index || self.proof.end_idx() != leaf_index + 1 {
+            bail_verification!(
+                "sample proof is for leaves {}..{}, expected {}..{}",
+                self.proof.start_idx(),
+                self.proof.end_idx(),
+                leaf_index,
+                leaf_index + 1
+            );
+        }
 
         self.proof
             .verify_range(&root, &[&self.share], *self.share.namespace())
